@@ -263,6 +263,7 @@ def cases(tier):
     for c in cs:
         if c.get("assume") == "import_lt = None":
             c["assume"] = None
+    cs.append({"name": "crosshair/einsum-label-helpers", "kind": "crosshair", "file": "crosshair_specs/einsum_helpers.py", "body": "crosshair check", "leaves": []})
     return cs
 
 
@@ -294,7 +295,41 @@ def _install_op_recorder():
     tb.Tensor._op = classmethod(_op)
 
 
+def run_crosshair(spec, tier):
+    """pure-Python helpers of EinSum.backward_var: PEP-316 contracts checked by CrossHair (symbolic str/int inputs, z3)"""
+    import os
+    import subprocess
+
+    res = common.new_result()
+    env = dict(os.environ)
+    env["PYTHONPATH"] = os.path.join(common.REPO, "src")
+    p = subprocess.run([sys.executable, "-m", "crosshair", "check", "--report_all", "--per_condition_timeout", "40" if tier == "quick" else "120",
+                        os.path.join(common.VERIF, spec["file"])], capture_output=True, text=True, env=env, cwd=common.VERIF, timeout=1500)
+    out = (p.stdout or "") + (p.stderr or "")
+    for line in out.splitlines():
+        if "Confirmed over all paths" in line:
+            res["unsat"] += 1
+            res["paths"] += 1
+        elif ": error:" in line:
+            res["sat"] += 1
+            code = "import sys\n# CrossHair counterexample for a contract in %s:\nprint(%r)\nprint('REPRODUCED'); sys.exit(1)\n" % (spec["file"], line)
+            path = common.write_replay(PROP, "crosshair_" + gradcase._safe(line.split(":")[1] if ":" in line else "x"), code)
+            res["status"] = common.VIOLATION
+            res["violations"].append({"signature": "crosshair:%s" % line.split("error:")[-1][:50], "replay": path, "summary": line[-300:]})
+        elif "Not confirmed" in line or "Unable to meet precondition" in line:
+            res["unknown"] += 1
+            res["status"] = common.INCONCLUSIVE if res["status"] == common.OK else res["status"]
+            res["notes"].append(line[-200:])
+    if res["paths"] == 0 and res["status"] == common.OK:
+        res["status"] = common.INCONCLUSIVE
+        res["notes"].append("crosshair produced no verdict: %s" % out[-300:])
+    res["sample"] = {"case": spec["name"], "contracts_confirmed_over_all_paths": res["unsat"], "bounds": "len(str) <= 4, unbounded ints"}
+    return res
+
+
 def run_case(spec, tier):
+    if spec.get("kind") == "crosshair":
+        return run_crosshair(spec, tier)
     mg = common._WORKER["mg"]
     _install_op_recorder()
     _OPS_SEEN.clear()
